@@ -16,6 +16,8 @@ type vEvent struct {
 	derr error
 	pcrc uint32 // the stored attachment CRC as ParsedCRC returns it (after the data was read)
 	perr error
+	ccrc uint32 // the CRC the reader computed over what it delivered (ComputedCRC, taken before ParsedCRC)
+	cerr error
 	pos  int64 // source position after the event
 }
 
@@ -46,11 +48,15 @@ func vLexEvents(src *vSource, opts *LexerOptions) ([]vEvent, error) {
 	var evs []vEvent
 	vLexSink = &evs
 	o := *opts
+	o.ComputeAttachmentCRCs = true
 	o.AttachmentCallback = func(ar *AttachmentReader) error {
 		evs := vLexSink
 		d, err := io.ReadAll(ar.Data())
 		ev := vEvent{att: true, ar: *ar, data: d, derr: err}
 		if err == nil {
+			if o.ComputeAttachmentCRCs {
+				ev.ccrc, ev.cerr = ar.ComputedCRC()
+			}
 			ev.pcrc, ev.perr = ar.ParsedCRC()
 		} else {
 			ev.perr = err
@@ -98,6 +104,8 @@ func vEventsPrefix(got, ref []vEvent, partialAtt bool, label string) {
 			} else {
 				vAssert(len(g.data) == len(r.data) && vBytesEq(g.data, r.data), label+": attachment data unaltered")
 				vAssert(g.perr == nil, label+": stored attachment CRC readable")
+				// the CRC computed over the delivered attachment bytes does not depend on how the read went
+				vAssert(g.cerr == nil && r.cerr == nil && g.ccrc == r.ccrc, label+": computed attachment CRC unaltered")
 			}
 			// whenever the stored CRC is returned without an error it is the stored CRC (a short read or a cut inside
 			// its four bytes must not surface as a padded value)
